@@ -28,6 +28,8 @@ func main() {
 		os.Exit(cmdExplain(os.Args[2:]))
 	case "guards":
 		os.Exit(cmdGuards(os.Args[2:]))
+	case "calls":
+		os.Exit(cmdCalls(os.Args[2:]))
 	case "manifest":
 		os.Exit(cmdManifest(os.Args[2:]))
 	case "trace":
@@ -99,6 +101,14 @@ func cmdCheck(args []string) int {
 			fmt.Fprintln(os.Stderr, err)
 			return 2
 		}
+		run.WideLoader = func() (*an.Prog, error) {
+			res, err := load.Load(load.Config{Dir: *repo, Patterns: []string{"./..."}})
+			if err != nil {
+				return nil, err
+			}
+			meta = append(meta, map[string]any{"dir": *repo, "patterns": []string{"./..."}, "root_packages_count": len(res.Roots), "files_parsed": res.Files, "wall_s": res.WallS, "purpose": "who-may-reference rules on exported objects"})
+			return an.NewProg(res), nil
+		}
 		run.Extra["explanation"] = s.Explanation
 		run.Extra["assumptions"] = s.Assumptions
 		run.Extra["not_decided"] = s.NotDecided
@@ -106,6 +116,7 @@ func cmdCheck(args []string) int {
 		if *tier == "thorough" {
 			spec.Thorough(run, s, *repo, loadFor)
 		}
+		run.Extra["loads_meta"] = meta
 		if c := run.Finish(*verif, seed, meta); c > rc {
 			rc = c
 		}
@@ -309,7 +320,7 @@ func cmdManifest(args []string) int {
 		"hooks": map[string]any{
 			"guard":            "verif",
 			"enable":           "no hooks: the checks analyse /repo's source as it is (no instrumentation, nothing built with a tag)",
-			"baseline_off_cmd": "cd /repo && export GOFLAGS=-mod=mod GOPROXY=off && for m in . actor cert clock fn healthcheck kvdb queue sqldb ticker tlv tools tor; do (cd $m && go test -vet=off -count=1 -timeout 25m ./...); done",
+			"baseline_off_cmd": "cd /repo && export GOFLAGS=-mod=mod GOPROXY=off && for m in . actor cert clock fn healthcheck kvdb queue sqldb sqldb/v2 ticker tlv tor; do (cd $m && go test -vet=off -count=1 -timeout 25m ./...); done",
 			"source_commits":   []string{},
 			"add_only":         true,
 		},
@@ -330,5 +341,37 @@ func cmdManifest(args []string) int {
 		return 2
 	}
 	fmt.Printf("MANIFEST.json: %d checks, %d not applicable\n", len(checks), len(na))
+	return 0
+}
+
+// cmdCalls prints every non-test call site of a callee with canonical
+// arguments and the guards at the site: lndlint calls <patterns> <calleeID>...
+func cmdCalls(args []string) int {
+	fs := flag.NewFlagSet("calls", flag.ExitOnError)
+	repo := fs.String("repo", "/repo", "repository root")
+	guards := fs.Bool("guards", false, "print guards")
+	fs.Parse(args)
+	if fs.NArg() < 2 {
+		usage()
+	}
+	res, err := load.Load(load.Config{Dir: *repo, Patterns: strings.Split(fs.Arg(0), ",")})
+	if err != nil {
+		fmt.Fprintln(os.Stderr, err)
+		return 2
+	}
+	prog := an.NewProg(res)
+	for _, f := range prog.Funcs(false) {
+		for _, s := range f.Calls(an.CalleeIs(fs.Args()[1:]...), false) {
+			fmt.Printf("%s\n", s.String())
+			for i, a := range f.ArgCanon(s) {
+				fmt.Printf("      arg%d = %s\n", i, a)
+			}
+			if *guards {
+				for _, g := range f.GuardsAt(s) {
+					fmt.Printf("      | %s\n", g)
+				}
+			}
+		}
+	}
 	return 0
 }
